@@ -72,6 +72,10 @@ type setupD struct {
 	// listener React.Lid reacts to an event (not to one emitted by a reaction) by emitting
 	// React.Act on ev.Resource from inside its call
 	React *reactD `json:"react,omitempty"`
+	// stateful ApplyCreate / ApplyDelete: the resource exists or not (initially Exists); create on
+	// an existing one fails with a duplicate error, delete of a missing one with res.ErrNotFound
+	Stateful bool `json:"stateful,omitempty"`
+	Exists   bool `json:"exists,omitempty"`
 }
 type reactD struct {
 	Lid int  `json:"lid"`
@@ -164,21 +168,45 @@ const (
 	failPlain = "plain apply failure"
 )
 
-func errTerm(ap string) string {
-	if ap == "fail-res" {
-		return "(ERes " + B(failCode) + " " + B(failMsg) + ")"
-	}
-	return "(EPlain " + B(failPlain) + ")"
-}
+// error values of a failing apply handler: whatever the value, the handler FAILED
+var failKinds = []string{"fail-res", "fail-plain", "fail-notfound", "fail-timeout", "fail-params", "fail-nf-custom", "fail-wrapped", "fail-nilres", "fail-dup"}
+
 func planErr(ap string) error {
 	switch ap {
 	case "fail-res":
 		return &res.Error{Code: failCode, Message: failMsg}
 	case "fail-plain":
 		return errors.New(failPlain)
+	case "fail-notfound":
+		return res.ErrNotFound
+	case "fail-timeout":
+		return res.ErrTimeout
+	case "fail-params":
+		return res.ErrInvalidParams
+	case "fail-nf-custom":
+		return &res.Error{Code: res.CodeNotFound, Message: "gone: no such thing"}
+	case "fail-wrapped":
+		return fmt.Errorf("%w", res.ErrNotFound)
+	case "fail-nilres":
+		var e *res.Error
+		return e // typed nil in a non-nil interface
+	case "fail-dup":
+		return &res.Error{Code: "t.duplicate", Message: "Duplicate resource"}
 	}
 	return nil
 }
+
+// Coq term (err) of an error VALUE
+func errValTerm(err error) string {
+	if e, ok := err.(*res.Error); ok {
+		if e == nil {
+			return "ENilRes"
+		}
+		return "(ERes " + B(e.Code) + " " + B(e.Message) + ")"
+	}
+	return "(EPlain " + B(err.Error()) + ")"
+}
+func errTerm(ap string) string { return errValTerm(planErr(ap)) }
 
 var kindTerm = map[string]string{"change": "KChange", "add": "KAdd", "remove": "KRemove", "create": "KCreate", "delete": "KDelete", "custom": "KCustom"}
 
@@ -289,6 +317,7 @@ type H struct {
 	curD   int // nesting tag: 0, or the id of the re-entrant listener whose reaction is running
 	depth  int
 	kept   []*kept
+	exists map[string]bool
 	d      caseD
 	rids   []string
 	panics []string
@@ -367,6 +396,19 @@ func (h *H) setCur(cb, act int, gid uint64, plan *actD) {
 	h.curCb, h.curAct, h.curGid, h.plan = cb, act, gid, plan
 	h.mu.Unlock()
 }
+// present: does the resource exist for the stateful apply handlers (h.mu held)
+func (h *H) present(rid string) bool {
+	if h.exists == nil {
+		h.exists = map[string]bool{}
+	}
+	v, ok := h.exists[rid]
+	if !ok {
+		v = h.d.Setup.Exists
+		h.exists[rid] = v
+	}
+	return v
+}
+
 func (h *H) getPlan() actD {
 	h.mu.Lock()
 	defer h.mu.Unlock()
@@ -419,7 +461,7 @@ func (h *H) applyOptions(s setupD) []res.Option {
 				rev = map[string]interface{}{}
 			}
 			if err != nil {
-				ret = "(RFail " + errTerm(p.Ap) + ")"
+				ret = "(RFail " + errValTerm(err) + ")"
 			} else {
 				ret = "(RChange " + encOMap(rev) + ")"
 			}
@@ -433,7 +475,7 @@ func (h *H) applyOptions(s setupD) []res.Option {
 			err := planErr(p.Ap)
 			ret := "RUnit"
 			if err != nil {
-				ret = "(RFail " + errTerm(p.Ap) + ")"
+				ret = "(RFail " + errValTerm(err) + ")"
 			}
 			h.add("EApply KAdd " + evTerm("add", r.ResourceName(), nil, nil, v, idx, nil, nil) + " " + ret)
 			return err
@@ -446,7 +488,7 @@ func (h *H) applyOptions(s setupD) []res.Option {
 			var v interface{}
 			var ret string
 			if err != nil {
-				ret = "(RFail " + errTerm(p.Ap) + ")"
+				ret = "(RFail " + errValTerm(err) + ")"
 			} else {
 				v = mkVal(p.Ret)
 				ret = "(RVal " + encVal(v) + ")"
@@ -459,9 +501,19 @@ func (h *H) applyOptions(s setupD) []res.Option {
 		opts = append(opts, res.ApplyCreate(func(r res.Resource, data interface{}) error {
 			p := h.getPlan()
 			err := planErr(p.Ap)
+			if s.Stateful {
+				err = nil
+				h.mu.Lock()
+				if h.present(r.ResourceName()) {
+					err = planErr("fail-dup")
+				} else {
+					h.exists[r.ResourceName()] = true
+				}
+				h.mu.Unlock()
+			}
 			ret := "RUnit"
 			if err != nil {
-				ret = "(RFail " + errTerm(p.Ap) + ")"
+				ret = "(RFail " + errValTerm(err) + ")"
 			}
 			h.add("EApply KCreate " + evTerm("create", r.ResourceName(), nil, nil, nil, 0, data, nil) + " " + ret)
 			return err
@@ -471,10 +523,20 @@ func (h *H) applyOptions(s setupD) []res.Option {
 		opts = append(opts, res.ApplyDelete(func(r res.Resource) (interface{}, error) {
 			p := h.getPlan()
 			err := planErr(p.Ap)
+			if s.Stateful {
+				err = nil
+				h.mu.Lock()
+				if h.present(r.ResourceName()) {
+					h.exists[r.ResourceName()] = false
+				} else {
+					err = res.ErrNotFound
+				}
+				h.mu.Unlock()
+			}
 			var v interface{}
 			var ret string
 			if err != nil {
-				ret = "(RFail " + errTerm(p.Ap) + ")"
+				ret = "(RFail " + errValTerm(err) + ")"
 			} else {
 				v = mkVal(p.Ret)
 				ret = "(RVal " + encVal(v) + ")"
@@ -515,6 +577,9 @@ func (h *H) runScript(ci int, r res.Resource, req res.CallRequest) {
 func panicTerm(v interface{}) string {
 	switch e := v.(type) {
 	case *res.Error:
+		if e == nil {
+			return "(Some (" + B("<nil *Error>") + ",[]))"
+		}
 		return "(Some (" + B(e.Code) + "," + B(e.Message) + "))"
 	case error:
 		return "(Some ([]," + B(e.Error()) + "))"
@@ -851,11 +916,11 @@ var goodNames = []string{"custom", "created", "foo-bar", "x_1", "$x", "{}", "Cha
 func applyChoices(op string) []string {
 	switch op {
 	case "change":
-		return []string{"ok", "fail-res", "fail-plain", "empty", "nil"}
+		return append([]string{"ok", "empty", "nil"}, failKinds...)
 	case "add", "create":
-		return []string{"ok", "fail-res", "fail-plain"}
+		return append([]string{"ok"}, failKinds...)
 	case "remove", "delete":
-		return []string{"ok", "nil", "fail-res", "fail-plain"}
+		return append([]string{"ok", "nil"}, failKinds...)
 	}
 	return nil
 }
@@ -959,7 +1024,7 @@ func (g *gen) action(sd setupD, ctx string, last bool) actD {
 	if ch := applyChoices(op); ch != nil {
 		switch k := g.r.Intn(100); {
 		case k < 8:
-			ap = g.r.Pick([]string{"fail-res", "fail-plain"})
+			ap = g.r.Pick(failKinds)
 		case k < 30:
 			ap = ch[g.r.Intn(len(ch))]
 			if strings.HasPrefix(ap, "fail") {
@@ -1073,7 +1138,7 @@ func (g *gen) reaction(sd setupD) actD {
 	if ch := applyChoices(op); ch != nil {
 		switch k := g.r.Intn(100); {
 		case k < 10:
-			ap = g.r.Pick([]string{"fail-res", "fail-plain"})
+			ap = g.r.Pick(failKinds)
 		case k < 30:
 			ap = ch[g.r.Intn(len(ch))]
 		}
@@ -1291,6 +1356,51 @@ func main() {
 					sd.Type = "unset"
 				}
 				add("reentrant-panic", single(sd, ctx, a1, g.baseAction("reaccess")))
+			}
+		}
+		// (g) stateful ApplyCreate / ApplyDelete: delete twice, create twice, over 1-3 callbacks;
+		// the plan of every call is what the state implies, the handlers decide from their own state
+		seqs := [][][]string{
+			{{"delete", "delete"}}, {{"create", "create"}}, {{"create", "delete", "delete"}},
+			{{"delete", "create", "create"}}, {{"delete"}, {"delete"}}, {{"create"}, {"create"}, {"delete", "delete"}},
+			{{"delete", "delete"}, {"create", "delete", "create", "create"}},
+		}
+		for si, seq := range seqs {
+			for _, exists := range []bool{true, false} {
+				for _, ctx := range []string{"call", "with"} {
+					for _, nl := range []int{0, 2} {
+						mode := []string{"direct", "pattern", "mount", "root"}[(si+nl)%4]
+						sd := setupD{Mode: mode, Type: []string{"model", "collection", "unset"}[si%3], Apply: allApply(true), Steps: g.steps(mode, nl), Stateful: true, Exists: exists}
+						d := caseD{Setup: sd}
+						state := exists
+						for _, ops := range seq {
+							cb := cbD{Ctx: ctx}
+							failed := false
+							for _, op := range ops {
+								a := g.baseAction(op)
+								ap := "ok"
+								if !failed {
+									if op == "delete" {
+										if state {
+											state = false
+										} else {
+											ap, failed = "fail-notfound", true
+										}
+									} else {
+										if state {
+											ap, failed = "fail-dup", true
+										} else {
+											state = true
+										}
+									}
+								}
+								cb.Script = append(cb.Script, g.withApply(a, sd, ap))
+							}
+							d.Cbs = append(d.Cbs, cb)
+						}
+						add("stateful", d)
+					}
+				}
 			}
 		}
 		// (d) random groups
